@@ -78,7 +78,9 @@ PROPS = {
         "trusted_base": ["the three SQL UPDATE statements of storage/messages.go transcribed row-wise (DB.ackTime, DB.resetAcks, DB.setSent)"],
     },
     "C09": {
-        "theorems": thms(P + "C09", ["C09_flag_set", "C09_ack_only_frame", "C09_flag_consumed", "C09_nothing_pending", "C09_no_entry"]),
+        "theorems": {**thms(P + "C09", ["C09_flag_set", "C09_ack_only_frame", "C09_flag_consumed", "C09_nothing_pending", "C09_no_entry"]),
+                     "LospanVerif.Props.C09All": ["LospanVerif.Props.C09.C09_acks_bounded", "LospanVerif.Props.C09.take_self", "LospanVerif.Props.C09.ainv_step"],
+                     **thms(P + "C03", ["C03_recorded_once", "C03_no_second_acceptance"])},
         "ties": PIPE_TIES,
         "engines": ["pipeseq", "pipectl", "rxwindow"],
         "assumptions": ["RX-window timing is runtime behaviour: engines pipeseq/pipectl run with a zero window and schedule the buffer read explicitly; engine rxwindow runs a real 400 ms window free-running and checks that the buffer is read when the window closes"],
@@ -218,9 +220,9 @@ MANIFEST_TEXT = {
         "technique": "Lean 4 proof (life-cycle invariant by cases over operations) + trace correspondence",
     },
     "C09": {
-        "level": "Lean theorems on the output buffer for every state: a pending acknowledgement always yields a frame with the ACK flag (even with nothing else to send) and taking it clears the flag; an entry with nothing pending yields nothing and is removed. The single-answer clause for concurrent copies of a strict device follows from C03's all-schedules theorem (only one copy passes the counter step) and is exercised under controlled schedules of 2..3 copies on the real pipeline; sequential histories are judged by the reference observer (exactly one ACK answer per accepted confirmed uplink, none for rejected frames, no answer when nothing is pending); the receive-window engine checks with a real 400 ms window that the buffer is read when the window closes.",
-        "note": "partial: the receive-window timer is runtime behaviour (checked by the rxwindow engine, not by a theorem)",
-        "technique": "Lean 4 proof (buffer decision logic; C03 invariant) + trace correspondence + reference observer + timed free-running runs",
+        "level": "Lean theorems. For EVERY event list (all interleavings of handlers, scheduler, sendAt and encoders, faults, crashes): the downlinks assembled with the ACK flag for a device never outnumber the accepted confirmed uplinks of that device - an acknowledgement is never repeated and none is sent that no confirmed uplink asked for (C09_acks_bounded: invariant 'ACK frames + pending flag <= confirmed uplinks' over the output-buffer operations); copies of one uplink of a strict-counter device are accepted at most once under every schedule (C03_recorded_once, C03_no_second_acceptance). On the output buffer, for every state: a pending acknowledgement always yields a frame with the ACK flag (even with nothing else to send) and taking it clears the flag; an entry with nothing pending yields nothing and is removed. Sequential histories are judged by the reference observer (exactly one ACK answer per accepted confirmed uplink, none for rejected frames, no answer when nothing is pending); controlled schedules of 2..3 copies run on the real pipeline; the receive-window engine checks with a real 400 ms window that the buffer is read when the window closes.",
+        "note": "partial: 'exactly one answer per accepted confirmed uplink' (liveness of the answer) is decided by the reference observer on the implementation, the theorem gives the 'at most' direction; the receive-window timer is runtime behaviour (checked by the rxwindow engine)",
+        "technique": "Lean 4 proof (invariant over all event lists; buffer decision logic; C03 invariant) + trace correspondence + reference observer + timed free-running runs",
     },
     "C10": {
         "level": "Lean theorems: inbox rows appear only in the step after the counter update; keys change only after the handler's own nonce insert; the downlink counter is stored past before the frame exists; each of these writes, when it fails, stops its handler; a crash keeps the database and drops everything volatile; and, for every event list with crashes and faults anywhere, accepted uplink counters and handed-out downlink counters stay below the stored ones (C03_accepted_below_stored, C07_issued_below_stored), so neither can be used again after recovery. Ordering and error dispositions of the real handlers are regenerated facts; crash and single-fault injection at every gate of the real uplink handler, join handler and encoder, followed by redelivery, runs on the real code under the gate controller.",
